@@ -20,7 +20,9 @@ class Socket(base_socket.BaseSocket):
             raise exceptions.QueueEmpty()
         if packets == [None]:
             return []
-        while True:
+        # a polling payload must not carry more packets than a receiver is
+        # willing to decode; what is left stays queued for the next poll
+        while len(packets) < payload.Payload.max_decode_packets:
             try:
                 pkt = self.queue.get(block=False)
                 self.queue.task_done()
